@@ -20,6 +20,9 @@ def run(ck, tier, seed):
         c = cases[p["id"]]
         o = obs[p["id"]]
         ck.cov["evaluations"] += 1
+        if o.get("skipped"):
+            ck.cov["not_run_unbounded_growth"] = ck.cov.get("not_run_unbounded_growth", 0) + 1
+            continue
         if "parse" in o:
             sig = "parse/" + "/".join(p["tags"][:2])
             if sig not in seen:
